@@ -6,7 +6,19 @@ import (
 )
 
 // S renders a Go string as a Coq byte list.
+// S renders a byte string as a Coq term of type J5sAst.str: (b "text") for printable ASCII
+// (a string literal parses an order of magnitude faster than a list of numerals - the case
+// files are dominated by names), the list of byte values otherwise.
 func S(s string) string {
+	plain := s != ""
+	for _, c := range []byte(s) {
+		if c < 32 || c > 126 || c == '"' {
+			plain = false
+		}
+	}
+	if plain {
+		return "(b \"" + s + "\")"
+	}
 	var sb strings.Builder
 	sb.WriteByte('[')
 	for i, c := range []byte(s) {
